@@ -1,6 +1,7 @@
 package props
 
 import (
+	"errors"
 	"fmt"
 
 	"golang.org/x/tools/go/ssa"
@@ -126,6 +127,10 @@ func lebRules(c *Ctx, mode string) int {
 			}
 			m := &casei.Machine{}
 			res, err := m.Run(rd, []casei.Val{{IsSlice: true, Arr: arr, Len: len(arr.Elems)}})
+			if err != nil && errors.Is(err, casei.ErrUnsupported) {
+				r.Infof("LEB.inv class %d: not decided (%v)", k, err)
+				continue
+			}
 			if err != nil {
 				r.Add("LEB.inv", core.FuncName(rd), what, p.Position(rd.Pos()), false, "not decided: "+err.Error())
 				continue
@@ -186,6 +191,8 @@ func lebRange(c *Ctx) int {
 		n++
 		what := fmt.Sprintf("a %d-octet encoding is read back as a value below 2^63 (int(value) is never negative)", k)
 		switch {
+		case err != nil && errors.Is(err, casei.ErrUnsupported):
+			r.Infof("LEB.range %d octets: not decided (%v)", k, err)
 		case err != nil:
 			r.Add("LEB.range", core.FuncName(rd), what, p.Position(rd.Pos()), false, "not decided: "+err.Error())
 		case len(res.Tuple) != 3:
